@@ -1,3 +1,4 @@
 pub mod join;
 pub mod watermark;
 pub mod window;
+pub mod store;
